@@ -36,10 +36,11 @@ Clause(r) ==
        ELSE IF r.cls \in GraderClasses /\ ~r.idempotent THEN "idempotent"
        ELSE IF r.dictcfg THEN DefaultClause(r, cfg) ELSE "ok"
   ELSE IF r.ev = "answers" THEN
-       LET e == AnswersExpect(r.ans)  c == Common(r, e) IN
+       LET ctx == CfgOf(r.ctx)  e == AnswersInContext(r.cls, ctx, r.ans)  c == Common(r, e) IN
        IF c = "skip" THEN "ok" ELSE IF c # "ok" THEN c
        ELSE IF r.status # "accept" THEN "ok"
        ELSE IF ~r.canon_ok \/ (e = "accept" /\ r.canon # CanonAnswers(r.ans)) THEN "canonical"
+       ELSE IF r.cmp_seen /\ (r.cmp # ComparerOf(r.cls, ctx) \/ r.cmp_kw # ComparerOf(r.cls, ctx)) THEN "comparer"
        ELSE IF ~r.idempotent THEN "idempotent" ELSE "ok"
   ELSE IF r.ev = "listans" THEN
        LET e == ListAnswersExpect(r.cls, r.la)  c == Common(r, e) IN
